@@ -36,22 +36,54 @@ package dig
 
 //@ pure func isInvoker(f Ref) Bool = f == defaultInvoker || f == dryInvoker
 
+// ---------------------------------------------------------------------------
+// type invariants: assumed whenever a non-nil pointer of the type is read,
+// proved where objects of the type are allocated and where the fields they
+// mention are written.
+
+//@ typeinv[scope-wf] (s *Scope) s.providers != nil && s.decorators != nil && s.values != nil && s.decoratedValues != nil
+//@   && s.groups != nil && s.decoratedGroups != nil && s.gh != nil && s.rand != nil
+//@   && isInvoker(s.invokerFn) && s.clockSrc != nil
+
+//@ pure func noNestedLists(rl resultList) Bool = forall j int :: 0 <= j && j < len(rl.Results) ==> !is(rl.Results[j], resultList)
+//@ pure func wfParamList(pl paramList) Bool =
+//@   pl.ctype != nil && kind(pl.ctype) == kFunc()
+//@   && len(pl.Params) == (isVariadic(pl.ctype) ? numIn(pl.ctype) - 1 : numIn(pl.ctype))
+//@   && (forall j int :: 0 <= j && j < len(pl.Params) ==> pl.Params[j] != nil && !is(pl.Params[j], paramList))
+
+//@ typeinv[ctor-node-wf] (n *constructorNode) n.ctor != nil && typeOf(n.ctor) == n.ctype && n.ctype != nil && kind(n.ctype) == kFunc()
+//@   && n.location != nil && n.s != nil && n.origS != nil && n.orders != nil
+//@   && wfResultList(n.resultList) && noNestedLists(n.resultList) && n.resultList.ctype == n.ctype
+//@   && len(n.resultList.resultIndexes) == numOut(n.ctype)
+//@   && n.paramList.ctype == n.ctype && wfParamList(n.paramList)
+
+//@ typeinv[dec-node-wf] (d *decoratorNode) d.dcor != nil && typeOf(d.dcor) == d.dtype && d.dtype != nil && kind(d.dtype) == kFunc()
+//@   && d.location != nil && d.s != nil && d.orders != nil
+//@   && wfResultList(d.results) && noNestedLists(d.results) && d.results.ctype == d.dtype
+//@   && len(d.results.resultIndexes) == numOut(d.dtype)
+//@   && d.params.ctype == d.dtype && wfParamList(d.params)
+
 // Contract of every value of type invokerFn (closed set by T4: isInvoker).
 //@ func type:dig.invokerFn(f, fn, args) (results)
 //@   trusted
+//@   modifies elems(reflect.Value)
 //@   requires[C17:invoker-known] isInvoker(f)
+//@   requires[C14:call-func] valid(fn) && kind(typ(fn)) == kFunc()
+//@   requires[C14:call-arity] isVariadic(typ(fn)) ? len(args) >= numIn(typ(fn)) - 1 : len(args) == numIn(typ(fn))
 //@   modifies $nrun, $runFn, $runArgs, $ev, $evKind
 //@   allocates
 //@   maypanic
 //@   ensures f == defaultInvoker ==> $nrun == old($nrun) + 1 && $runFn[old($nrun)] == fn && $runArgs[old($nrun)] == args
 //@   ensures f == defaultInvoker ==> $ev == old($ev) + 1 && $evKind[old($ev)] == evRun()
-//@   ensures f == defaultInvoker ==> (forall i int :: 0 <= i && i < old($nrun) ==> $runFn[i] == old($runFn)[i] && $runArgs[i] == old($runArgs)[i])
-//@   ensures f == defaultInvoker ==> (forall i int :: 0 <= i && i < old($ev) ==> $evKind[i] == old($evKind)[i])
+//@   ensures f == defaultInvoker ==> (forall i int :: i < old($nrun) ==> $runFn[i] == old($runFn)[i] && $runArgs[i] == old($runArgs)[i])
+//@   ensures f == defaultInvoker ==> (forall i int :: i < old($ev) ==> $evKind[i] == old($evKind)[i])
 //@   ensures f == dryInvoker ==> $nrun == old($nrun) && $ev == old($ev) && $runFn == old($runFn) && $runArgs == old($runArgs) && $evKind == old($evKind)
 //@   ensures fresh(results) || len(results) == 0
+//@   ensures len(results) == numOut(typ(fn))
+//@   ensures forall i int :: 0 <= i && i < len(results) ==> valid(results[i]) && typ(results[i]) == outT(typ(fn), i)
 //@   onpanic f == defaultInvoker && $nrun == old($nrun) + 1 && $runFn[old($nrun)] == fn && $runArgs[old($nrun)] == args
 //@   onpanic $ev == old($ev) + 1 && $evKind[old($ev)] == evRun()
-//@   onpanic forall i int :: 0 <= i && i < old($ev) ==> $evKind[i] == old($evKind)[i]
+//@   onpanic forall i int :: i < old($ev) ==> $evKind[i] == old($evKind)[i]
 
 // Contract of every user callback.
 //@ func type:dig.Callback(f, info) ()
@@ -59,21 +91,21 @@ package dig
 //@   modifies $ncb, $cbFn, $cbInfo, $ev, $evKind
 //@   ensures $ncb == old($ncb) + 1 && $cbFn[old($ncb)] == f && $cbInfo[old($ncb)] == info
 //@   ensures $ev == old($ev) + 1 && $evKind[old($ev)] == evCallback()
-//@   ensures forall i int :: 0 <= i && i < old($ev) ==> $evKind[i] == old($evKind)[i]
-//@   ensures forall i int :: 0 <= i && i < old($ncb) ==> $cbFn[i] == old($cbFn)[i] && $cbInfo[i] == old($cbInfo)[i]
+//@   ensures forall i int :: i < old($ev) ==> $evKind[i] == old($evKind)[i]
+//@   ensures forall i int :: i < old($ncb) ==> $cbFn[i] == old($cbFn)[i] && $cbInfo[i] == old($cbInfo)[i]
 
 // Clock reads are events too (C20: what Runtime measures).
 //@ func (c digclock.Clock) Now() (t)
 //@   trusted
 //@   modifies $ev, $evKind, $evTime
 //@   ensures $ev == old($ev) + 1 && $evKind[old($ev)] == evNow() && $evTime[old($ev)] == t
-//@   ensures forall i int :: 0 <= i && i < old($ev) ==> $evKind[i] == old($evKind)[i] && $evTime[i] == old($evTime)[i]
+//@   ensures forall i int :: i < old($ev) ==> $evKind[i] == old($evKind)[i] && $evTime[i] == old($evTime)[i]
 
 //@ func (c digclock.Clock) Since(t0) (d)
 //@   trusted
 //@   modifies $ev, $evKind, $evTime, $evDur
 //@   ensures $ev == old($ev) + 1 && $evKind[old($ev)] == evSince() && $evTime[old($ev)] == t0 && $evDur[old($ev)] == d
-//@   ensures forall i int :: 0 <= i && i < old($ev) ==> $evKind[i] == old($evKind)[i] && $evTime[i] == old($evTime)[i] && $evDur[i] == old($evDur)[i]
+//@   ensures forall i int :: i < old($ev) ==> $evKind[i] == old($evKind)[i] && $evTime[i] == old($evTime)[i] && $evDur[i] == old($evDur)[i]
 
 // ---------------------------------------------------------------------------
 // the resolution knot: frame shared by BuildList / Build / Call
@@ -90,22 +122,16 @@ package dig
 //@   ensures err == nil ==> fresh(args) || len(args) == 0
 //@   ensures $nrun >= old($nrun) && $ev >= old($ev) && $ncb >= old($ncb)
 //@   ensures forall m *constructorNode :: old(m.called) ==> m.called
+//@   ensures forall d *decoratorNode :: old(d.state) == decoratorOnStack ==> d.state == decoratorOnStack
 //@   onpanic $nrun >= old($nrun) && $ev >= old($ev) && $ncb >= old($ncb)
 //@   onpanic forall m *constructorNode :: old(m.called) ==> m.called
+//@   onpanic forall d *decoratorNode :: old(d.state) == decoratorOnStack ==> d.state == decoratorOnStack
 
 //@ func shallowCheckDependencies(c, pl) (err)
 //@   trusted
 //@   requires c != nil
 //@   allocates
 //@   ensures err == nil || is(err, errMissingTypes)
-
-//@ func (rl resultList) ExtractList(cw, decorated, values) (err)
-//@   trusted
-//@   requires cw != nil
-//@   modifies map(Scope.values), map(Scope.groups), map(Scope.decoratedGroups), elems(reflect.Value)
-//@   allocates
-//@   ensures is(cw, ptr(stagingContainerWriter)) ==> (forall m map[key]reflect.Value :: m != as(cw, ptr(stagingContainerWriter)).values && allocated(m) ==> mapeq(m))
-//@   ensures is(cw, ptr(stagingContainerWriter)) ==> (forall m map[key][]reflect.Value :: m != as(cw, ptr(stagingContainerWriter)).groups && allocated(m) ==> mapeq(m))
 
 //@ func (sr *stagingContainerWriter) Commit(cw) ()
 //@   trusted
@@ -115,16 +141,129 @@ package dig
 
 //@ func (n *constructorNode) Call(c) (err)
 //@   requires n != nil && c != nil && is(c, ptr(Scope)) && as(c, ptr(Scope)) != nil
-//@   requires n.s != nil && isInvoker(as(c, ptr(Scope)).invokerFn)
-//@   requires n.callback != nil ==> n.location != nil
-//@   requires as(c, ptr(Scope)).clockSrc != nil
 //@   modifies @knot
 //@   allocates
 //@   maypanic
+//@   let dflt = as(c, ptr(Scope)).invokerFn == defaultInvoker
 //@   ensures[C02:noop-when-called] old(n.called) ==> err == nil && unchangedAll() && $nrun == old($nrun) && $ncb == old($ncb) && $ev == old($ev)
 //@   ensures[C02:success-means-called] err == nil ==> n.called
 //@   ensures[C07:called-only-on-success] reached(BuildList_1) && err != nil ==> n.called == at(BuildList_1, n.called)
 //@   ensures[C07:fail-commits-nothing] reached(BuildList_1) && err != nil ==> sameSince(BuildList_1, map(Scope.values), map(Scope.groups), map(Scope.decoratedGroups))
 //@   ensures[C03:at-most-one-run] reached(BuildList_1) ==> $nrun <= at(BuildList_1, $nrun) + 1
-//@   ensures[C03:no-run-without-args] !reached(BuildList_1) ==> $nrun == old($nrun) && $ncb == old($ncb)
-//@   ensures[C04:missing-deps-no-run] !old(n.called) && err != nil && is(err, errMissingDependencies) ==> $nrun == old($nrun) && $ncb == old($ncb) && unchangedAll()
+//@   ensures[C03:no-run-without-args] !reached(BuildList_1) || ret(BuildList_1, 1) != nil ==> $nrun == at(BuildList_1, $nrun) && $ncb == at(BuildList_1, $ncb)
+//@   ensures[C04:missing-deps-no-run] !old(n.called) && !reached(BuildList_1) ==> err != nil && is(err, errMissingDependencies) && $nrun == old($nrun) && $ncb == old($ncb) && unchangedAll()
+//@   ensures[C01:runs-own-ctor-with-built-args] reached(invokerFn_1) && dflt ==> $nrun == at(BuildList_1, $nrun) + 1
+//@        && $runFn[at(BuildList_1, $nrun)] == valueOf(n.ctor) && $runArgs[at(BuildList_1, $nrun)] == ret(BuildList_1, 0)
+//@   ensures[C13:ctor-error-is-root-cause] reached(ExtractList_1) && ret(ExtractList_1, 0) != nil ==> is(err, errConstructorFailed)
+//@        && as(err, errConstructorFailed).Reason == ret(ExtractList_1, 0) && as(err, errConstructorFailed).Func == n.location
+//@   ensures[C13:args-error-wrapped] reached(BuildList_1) && ret(BuildList_1, 1) != nil ==> is(err, errArgumentsFailed) && as(err, errArgumentsFailed).Reason == ret(BuildList_1, 1)
+//@   ensures[C13:panic-to-PanicError] recovered() ==> n.s.recoverFromPanics && is(err, PanicError) && as(err, PanicError).Panic == $recovered && as(err, PanicError).fn == n.location
+//@   ensures[C13:recovered-is-the-functions-panic] recovered() ==> reached(invokerFn_1_panic) && $recovered == ret(invokerFn_1_panic, 0)
+//@   onpanic[C13:panic-propagates-unchanged] reached(invokerFn_1_panic) ==> $panic == ret(invokerFn_1_panic, 0) && !n.s.recoverFromPanics
+//@   onpanic[C07:panic-commits-nothing] reached(BuildList_1) ==> n.called == at(BuildList_1, n.called)
+//@   onpanic[C07:panic-commits-nothing-maps] reached(BuildList_1) ==> sameSince(BuildList_1, map(Scope.values), map(Scope.groups), map(Scope.decoratedGroups))
+//@   ensures[C20:callback-once-with-outcome] reached(BuildList_1) && ret(BuildList_1, 1) == nil && n.callback != nil ==>
+//@        $ncb == at(BuildList_1, $ncb) + 1 && $cbFn[at(BuildList_1, $ncb)] == n.callback && $cbInfo[at(BuildList_1, $ncb)].Error == err
+//@   ensures[C20:no-callback-registered] reached(BuildList_1) && n.callback == nil ==> $ncb == at(BuildList_1, $ncb)
+//@   let ranWithCb = reached(BuildList_1) && ret(BuildList_1, 1) == nil && n.callback != nil && dflt
+//@   ensures[C20:four-events] ranWithCb ==> $ev == at(BuildList_1, $ev) + 4
+//@   ensures[C20:event-order] ranWithCb ==> $evKind[at(BuildList_1, $ev)] == evNow() && $evKind[at(BuildList_1, $ev) + 1] == evRun()
+//@        && $evKind[at(BuildList_1, $ev) + 2] == evSince() && $evKind[at(BuildList_1, $ev) + 3] == evCallback()
+//@   ensures[C20:since-start-of-run] ranWithCb ==> $evTime[at(BuildList_1, $ev) + 2] == $evTime[at(BuildList_1, $ev)]
+//@   ensures[C20:runtime-is-that-duration] ranWithCb ==> $cbInfo[at(BuildList_1, $ncb)].Runtime == $evDur[at(BuildList_1, $ev) + 2]
+//@   site call (dig.paramList).BuildList #1: assert[C08:args-built-in-given-scope] $arg0 == c
+//@   site call (dig.paramList).BuildList #1: assert[C01:builds-own-params] $recv == n.paramList
+//@   site call (*dig.stagingContainerWriter).Commit #1: assert[C08:commit-home] is($arg0, ptr(Scope)) && as($arg0, ptr(Scope)) == n.s
+//@   site call (dig.resultList).ExtractList #1: assert[C07:extract-into-staging] is($arg0, ptr(stagingContainerWriter)) && fresh(as($arg0, ptr(stagingContainerWriter))) && !$arg1
+//@   site call (dig.resultList).ExtractList #1: assert[C01:extracts-own-results] $recv == n.resultList && $arg2 == ret(invokerFn_1, 0)
+
+//@ func (n *decoratorNode) Call(s) (err)
+//@   requires n != nil && s != nil && is(s, ptr(Scope)) && as(s, ptr(Scope)) != nil
+//@   requires[C02:not-on-stack] n.state != decoratorOnStack
+//@   modifies @knot
+//@   allocates
+//@   maypanic
+//@   let dflt = as(s, ptr(Scope)).invokerFn == defaultInvoker
+//@   ensures[C02:dec-noop-when-called] old(n.state) == decoratorCalled ==> err == nil && unchangedAll() && $nrun == old($nrun) && $ncb == old($ncb) && $ev == old($ev)
+//@   ensures[C02:dec-success-means-called] err == nil ==> n.state == decoratorCalled
+//@   ensures[C07:dec-fail-resets-state] err != nil ==> n.state == decoratorReady
+//@   ensures[C07:dec-fail-commits-nothing] reached(BuildList_1) && err != nil ==> sameSince(BuildList_1, map(Scope.values), map(Scope.groups), map(Scope.decoratedGroups))
+//@   onpanic[C07:dec-panic-resets-state] n.state == decoratorReady
+//@   onpanic[C07:dec-panic-commits-nothing] reached(BuildList_1) ==> sameSince(BuildList_1, map(Scope.values), map(Scope.groups), map(Scope.decoratedGroups))
+//@   ensures[C03:dec-at-most-one-run] reached(BuildList_1) ==> $nrun <= at(BuildList_1, $nrun) + 1
+//@   ensures[C03:dec-no-run-without-args] !reached(BuildList_1) || ret(BuildList_1, 1) != nil ==> $nrun == at(BuildList_1, $nrun) && $ncb == at(BuildList_1, $ncb)
+//@   ensures[C04:dec-missing-deps-no-run] old(n.state) != decoratorCalled && !reached(BuildList_1) ==> err != nil && is(err, errMissingDependencies) && $nrun == old($nrun) && $ncb == old($ncb)
+//@   ensures[C01:dec-runs-own-function-with-built-args] reached(invokerFn_1) && dflt ==> $nrun == at(BuildList_1, $nrun) + 1
+//@        && $runFn[at(BuildList_1, $nrun)] == valueOf(n.dcor) && $runArgs[at(BuildList_1, $nrun)] == ret(BuildList_1, 0)
+//@   ensures[C13:dec-error-identity] reached(ExtractList_1) && ret(ExtractList_1, 0) != nil ==> err == ret(ExtractList_1, 0)
+//@   ensures[C13:dec-args-error-wrapped] reached(BuildList_1) && ret(BuildList_1, 1) != nil ==> is(err, errArgumentsFailed) && as(err, errArgumentsFailed).Reason == ret(BuildList_1, 1)
+//@   ensures[C13:dec-panic-to-PanicError] recovered() ==> n.s.recoverFromPanics && is(err, PanicError) && as(err, PanicError).Panic == $recovered && as(err, PanicError).fn == n.location
+//@   ensures[C13:dec-recovered-is-the-functions-panic] recovered() ==> reached(invokerFn_1_panic) && $recovered == ret(invokerFn_1_panic, 0)
+//@   onpanic[C13:dec-panic-propagates-unchanged] reached(invokerFn_1_panic) ==> $panic == ret(invokerFn_1_panic, 0) && !n.s.recoverFromPanics
+//@   ensures[C20:dec-callback-once-with-outcome] reached(BuildList_1) && ret(BuildList_1, 1) == nil && n.callback != nil ==>
+//@        $ncb == at(BuildList_1, $ncb) + 1 && $cbFn[at(BuildList_1, $ncb)] == n.callback && $cbInfo[at(BuildList_1, $ncb)].Error == err
+//@   ensures[C20:dec-no-callback-registered] reached(BuildList_1) && n.callback == nil ==> $ncb == at(BuildList_1, $ncb)
+//@   let ranWithCb = reached(BuildList_1) && ret(BuildList_1, 1) == nil && n.callback != nil && dflt
+//@   ensures[C20:dec-four-events] ranWithCb ==> $ev == at(BuildList_1, $ev) + 4
+//@   ensures[C20:dec-event-order] ranWithCb ==> $evKind[at(BuildList_1, $ev)] == evNow() && $evKind[at(BuildList_1, $ev) + 1] == evRun()
+//@        && $evKind[at(BuildList_1, $ev) + 2] == evSince() && $evKind[at(BuildList_1, $ev) + 3] == evCallback()
+//@   ensures[C20:dec-since-start-of-run] ranWithCb ==> $evTime[at(BuildList_1, $ev) + 2] == $evTime[at(BuildList_1, $ev)]
+//@   ensures[C20:dec-runtime-is-that-duration] ranWithCb ==> $cbInfo[at(BuildList_1, $ncb)].Runtime == $evDur[at(BuildList_1, $ev) + 2]
+//@   site call (dig.paramList).BuildList #1: assert[C12:dec-args-from-own-scope] is($arg0, ptr(Scope)) && as($arg0, ptr(Scope)) == n.s
+//@   site call (dig.paramList).BuildList #1: assert[C01:dec-builds-own-params] $recv == n.params
+//@   site call (dig.resultList).ExtractList #1: assert[C12:dec-stores-decorated-in-own-scope] is($arg0, ptr(Scope)) && as($arg0, ptr(Scope)) == n.s && $arg1
+//@   site call (dig.resultList).ExtractList #1: assert[C01:dec-extracts-own-results] $recv == n.results && $arg2 == ret(invokerFn_1, 0)
+
+// ---------------------------------------------------------------------------
+// results: who may be written by an Extract (C07, C01, C10)
+
+//@ pure func wfResultList(rl resultList) Bool =
+//@   (forall i int :: 0 <= i && i < len(rl.resultIndexes) ==> 0 - 1 <= rl.resultIndexes[i] && rl.resultIndexes[i] < len(rl.Results))
+//@   && (forall j int :: 0 <= j && j < len(rl.Results) ==> rl.Results[j] != nil)
+
+// A containerWriter only ever writes its own maps: the staging writer its two
+// staging maps, a Scope its values/groups (or, when decorating, its decorated
+// maps). Every other allocated map keeps its contents.
+//@ pure func wrValues(cw Any, decorated Bool) Bool =
+//@   (is(cw, ptr(stagingContainerWriter)) ==> (forall m map[key]reflect.Value :: existed(m) && m != as(cw, ptr(stagingContainerWriter)).values ==> mapeq(m)))
+//@   && (is(cw, ptr(Scope)) && !decorated ==> (forall m map[key]reflect.Value :: existed(m) && m != as(cw, ptr(Scope)).values ==> mapeq(m)))
+//@   && (is(cw, ptr(Scope)) && decorated ==> (forall m map[key]reflect.Value :: existed(m) && m != as(cw, ptr(Scope)).decoratedValues && m != as(cw, ptr(Scope)).decoratedGroups ==> mapeq(m)))
+//@ pure func wrGroups(cw Any, decorated Bool) Bool =
+//@   (is(cw, ptr(stagingContainerWriter)) ==> (forall m map[key][]reflect.Value :: existed(m) && m != as(cw, ptr(stagingContainerWriter)).groups ==> mapeq(m)))
+//@   && (is(cw, ptr(Scope)) && !decorated ==> (forall m map[key][]reflect.Value :: existed(m) && m != as(cw, ptr(Scope)).groups ==> mapeq(m)))
+//@   && (is(cw, ptr(Scope)) && decorated ==> (forall m map[key][]reflect.Value :: existed(m) ==> mapeq(m)))
+//@ pure func wfWriter(cw Any) Bool =
+//@   (is(cw, ptr(stagingContainerWriter)) || is(cw, ptr(Scope)))
+//@   && (is(cw, ptr(stagingContainerWriter)) ==> as(cw, ptr(stagingContainerWriter)) != nil && as(cw, ptr(stagingContainerWriter)).values != nil && as(cw, ptr(stagingContainerWriter)).groups != nil)
+//@   && (is(cw, ptr(Scope)) ==> as(cw, ptr(Scope)) != nil && as(cw, ptr(Scope)).values != nil && as(cw, ptr(Scope)).groups != nil
+//@         && as(cw, ptr(Scope)).decoratedValues != nil && as(cw, ptr(Scope)).decoratedGroups != nil)
+
+//@ locset written = map(Scope.values), map(Scope.groups), elems(reflect.Value)
+
+// interface-level contract of result.Extract (every implementation refines it)
+//@ func (r result) Extract(cw, decorated, v) ()
+//@   trusted
+//@   requires wfWriter(cw)
+//@   requires is(cw, ptr(stagingContainerWriter)) ==> !decorated
+//@   requires !is(r, resultList)
+//@   modifies @written
+//@   allocates
+//@   ensures[C07:extract-writes-own-maps] wrValues(cw, decorated) && wrGroups(cw, decorated)
+
+//@ func (rl resultList) ExtractList(cw, decorated, values) (err)
+//@   requires wfWriter(cw) && wfResultList(rl) && len(values) <= len(rl.resultIndexes)
+//@   requires is(cw, ptr(stagingContainerWriter)) ==> !decorated
+//@   requires forall j int :: 0 <= j && j < len(rl.Results) ==> !is(rl.Results[j], resultList)
+//@   requires forall i int :: 0 <= i && i < len(values) ==> valid(values[i])
+//@   modifies @written
+//@   allocates
+//@   ensures[C07:error-first] err != nil ==> unchangedAll()
+//@   ensures[C07:extract-list-writes-own-maps] wrValues(cw, decorated) && wrGroups(cw, decorated)
+//@   ensures[C13:returns-the-functions-error] err != nil ==> exists i int :: 0 <= i && i < len(values) && rl.resultIndexes[i] < 0 && err == rvIface(values[i])
+//@   ensures[C07:nil-errors-mean-success] (forall i int :: 0 <= i && i < len(values) && rl.resultIndexes[i] < 0 ==> !isErrorValue(rvIface(values[i]))) ==> err == nil
+//@   loop range values #1: invariant[C07:no-write-before-errors] unchangedAll()
+//@   loop range values #1: invariant[C07:errors-seen-so-far] forall i int :: 0 <= i && i < $i && rl.resultIndexes[i] < 0 ==> !isErrorValue(rvIface(values[i]))
+//@   loop range values #2: invariant[C07:extract-loop-writes-own-maps] wrValues(cw, decorated) && wrGroups(cw, decorated)
+
+// a reflected interface value holds a non-nil error
+//@ pure func isErrorValue(x Any) Bool = isA(x, error)
